@@ -58,6 +58,7 @@ type content struct {
 	Pos int    `json:"pos"`
 	V   []int  `json:"v"`
 	D   []int  `json:"d"`
+	V2  []int  `json:"v2"`
 }
 
 type tcase struct {
@@ -68,6 +69,7 @@ type tcase struct {
 	Exp   []content `json:"exp"`
 	Res   []int     `json:"res"`
 	Prev  []content `json:"prev"`
+	Share []shareRec `json:"share"`
 
 	taint    [2]bool // per base storage: not compared (see sparseDeviation)
 	realOnly bool
@@ -120,6 +122,10 @@ type obj struct {
 	m      Matrix
 	vi     vecIter
 	mi     matIter
+	vj     vecJoint
+	mj     matJoint
+	t      *AvlTree
+	ai     *AvlIterator
 	sparse bool
 	ti     int
 	flavor string // how it was made (evidence / signature)
@@ -205,8 +211,13 @@ func assignConst(s Scalar, w int, f int) {
 
 func (w *world) make(c *tcase, in inst) {
 	st := c.Steps[0]
-	o := &obj{k: map[string]string{"sca": "s", "vec": "v", "mat": "m"}[c.Fam], sparse: in.sparse, ti: in.ti, flavor: "make"}
+	o := &obj{k: map[string]string{"sca": "s", "vec": "v", "mat": "m", "avl": "t"}[c.Fam], sparse: in.sparse, ti: in.ti, flavor: "make"}
 	switch o.k {
+	case "t":
+		o.t = NewAvlTree()
+		for _, x := range c.Init {
+			o.t.Insert(x)
+		}
 	case "s":
 		o.sc = NewScalar(typeOf(in.ti), float64(c.Init[0]))
 	case "v":
@@ -228,6 +239,13 @@ func (w *world) make(c *tcase, in inst) {
 }
 
 func (o *obj) dims() (int, int) {
+	if o.t != nil {
+		n := 0
+		for it := o.t.Iterator(); it.Ok() && n < 1000; it.Next() {
+			n++
+		}
+		return 1, n
+	}
 	switch o.k {
 	case "v":
 		return 1, o.v.Dim()
@@ -278,6 +296,9 @@ func asMatrix(ti int, sparse bool, m ConstMatrix) Matrix {
 func (w *world) apply(st step) (res []float64, note string) {
 	o := w.objs[st.S-1]
 	f := w.pick(64)
+	if w.applyExtra(st, f) {
+		return
+	}
 	switch st.Op {
 	case "clone":
 		n := &obj{k: o.k, sparse: o.sparse, ti: o.ti}
@@ -659,6 +680,9 @@ func (o *obj) diff(e *content) (what, detail string) {
 	if o.k != e.K {
 		return "kind", o.k + " want " + e.K
 	}
+	if h, what, detail := o.diffExtra(e); h {
+		return what, detail
+	}
 	switch o.k {
 	case "i":
 		n := len(e.V)
@@ -765,7 +789,11 @@ func (w *world) observe() []vh.M {
 		vh.Try(func() {
 			r, c := o.dims()
 			vals := []float64{}
-			if o.k != "i" {
+			if o.t != nil {
+				for it := o.t.Iterator(); it.Ok() && len(vals) < 1000; it.Next() {
+					vals = append(vals, float64(it.Get()))
+				}
+			} else if o.k != "i" {
 				for p := 1; p <= r*c; p++ {
 					vals = append(vals, o.constAt(p).GetFloat64())
 				}
@@ -803,6 +831,9 @@ func realOnly(c *tcase) bool {
 
 // deviation potential of the LAST step; base = storage of the first object
 func sparseDeviation(c *tcase, base bool) bool {
+	if c.Fam == "avl" {
+		return false
+	}
 	n := len(c.Steps)
 	sparse := []bool{base}
 	group := []int{0}
@@ -822,7 +853,7 @@ func sparseDeviation(c *tcase, base bool) bool {
 			add(sparse[s], group[s], true, false)
 		case "elem":
 			add(sparse[s], group[s], false, true)
-		case "iter", "itclone":
+		case "iter", "itclone", "jiter":
 			add(sparse[s], group[s], false, false)
 		}
 	}
@@ -918,7 +949,8 @@ func derivChain(c *tcase) string {
 	ops := []string{}
 	for _, st := range c.Steps[1:] {
 		switch st.Op {
-		case "clone", "asSame", "asFlip", "asType", "row", "col", "slice", "mslice", "T", "elem", "iter", "itclone":
+		case "clone", "asSame", "asFlip", "asType", "row", "col", "slice", "mslice", "T", "elem", "iter", "itclone",
+			"jiter", "tclone", "titer", "safeiter", "safefrom":
 			ops = append(ops, st.Op)
 		}
 	}
@@ -987,6 +1019,17 @@ func runCase(c *tcase, idx int, in inst, res *result, wd *watch) {
 			return
 		}
 	}
+	// the share set: storage that objects really have in common vs what the specification allows
+	if isDerive(last.Op) || last.Op == "append" {
+		if a, b, detail := w.shareDiff(c.Share); detail != "" {
+			on := "pair"
+			if a >= 1 && b >= 1 {
+				on = w.objs[a-1].k + ":" + w.objs[a-1].flavor + "~" + w.objs[b-1].k + ":" + w.objs[b-1].flavor
+			}
+			report("shares_storage", on, detail, b)
+			return
+		}
+	}
 	if len(c.Res) > 0 || len(probe) > 0 {
 		ok := len(c.Res) == len(probe)
 		if ok && note == "multiset" {
@@ -1017,7 +1060,8 @@ func runCase(c *tcase, idx int, in inst, res *result, wd *watch) {
 
 func isDerive(op string) bool {
 	switch op {
-	case "clone", "asSame", "asFlip", "asType", "row", "col", "slice", "mslice", "T", "elem", "iter", "itclone":
+	case "clone", "asSame", "asFlip", "asType", "row", "col", "slice", "mslice", "T", "elem", "iter", "itclone",
+			"jiter", "tclone", "titer", "safeiter", "safefrom":
 		return true
 	}
 	return false
@@ -1045,6 +1089,9 @@ func (w *watch) end() {
 
 func instances(fam string, idx int) []inst {
 	out := []inst{}
+	if fam == "avl" {
+		return []inst{{false, 4}} // the index holds ints
+	}
 	for _, sp := range []bool{false, true} {
 		if sp && fam == "sca" {
 			continue // scalars have no storage variants
